@@ -28,7 +28,7 @@ WITNESSES = ("NeverTerm", "NeverKill", "NeverDone", "NeverTermToZombie", "NeverK
 UNTIMED = {"NoPanic", "Reaped", "Faithful", "SecondSame", "SecondQuiet"}
 PROPERTY_OF = {"TermNotEarly": "P1", "KillNotEarly": "P1", "KillAfterTerm": "P1", "NoNeedlessTerm": "P1", "NoNeedlessKill": "P1",
                "PreExited": "P1/P4", "Bounded": "P2", "Responsive": "P2", "Prompt": "P2", "Reaped": "P3", "Faithful": "P3", "NoPanic": "P4",
-               "SecondReturns": "P4", "SecondSame": "P4", "SecondQuiet": "P4", "ServerSeesEof": "P5", "PureClean": "P5"}
+               "SecondReturns": "P4", "SecondSame": "P4", "SecondQuiet": "P4", "StdinClosedFirst": "P1/P5", "PureClean": "P5"}
 NCLASSES = 664
 HARNESS = ["mcp/x04_cmd_test.go"]
 
@@ -133,11 +133,15 @@ def make_cases(classes, tier, seed, lead):
 def run_harness(cases, out, tag, parallel, seed):
     cin, cout = os.path.join(out, "cases-%s.ndjson" % tag), os.path.join(out, "obs-%s.ndjson" % tag)
     vlib.write_ndjson(cin, cases)
-    rc, gout, wall = vlib.go_test("mcp", "^TestVerif_X04$", HARNESS, env={"VERIF_IN": cin, "VERIF_OUT": cout, "VERIF_SEED": seed},
-                                  timeout=900, parallel=parallel)
-    vlib.go_must_build(rc, gout, PID)
-    if rc != 0:
-        raise vlib.MachineryError("X04 harness failed:\n" + gout[-3000:])
+    for attempt in (1, 2):
+        rc, gout, wall = vlib.go_test("mcp", "^TestVerif_X04$", HARNESS, env={"VERIF_IN": cin, "VERIF_OUT": cout, "VERIF_SEED": seed, "VERIF_X04_DIR": own_wd()},
+                                      timeout=900, parallel=parallel)
+        vlib.go_must_build(rc, gout, PID)
+        if rc == 0:
+            break
+        # the test binary was signalled from outside (seen once: "signal: terminated" 0.3 s after its start): once more
+        if attempt == 2 or "panic:" in gout or "--- FAIL" in gout or "signal:" not in gout:
+            raise vlib.MachineryError("X04 harness failed:\n" + gout[-3000:])
     rows = vlib.read_ndjson(cout)
     os.remove(cout)
     os.remove(cin)
@@ -192,6 +196,9 @@ def run(tier, seed, replay):
         "TLC exhaustive results are for TD = 8 (and 16) ticks per td, timer lateness <= 1 tick, 664 classes",
     ]
     out = vlib.outdir(PID)
+    for f in os.listdir(out):
+        if f.startswith(("obs-", "cases-")) and f.endswith(".ndjson"):
+            os.remove(os.path.join(out, f))
     if replay:
         rep = json.load(open(replay))["replay"]
         classes, table = export(v)
